@@ -197,10 +197,19 @@ class C16(Check):
         z.writestr(b"x", "before")
         for i, n in enumerate(names):
             want_ok, want_stack = verdict(n)
-            api = "writestr" if i % 2 == 0 else "writef"
+            # the verdict on a name must not depend on how the payload is handed over
+            api = ["writestr", "writef", "writestr-bytearray", "writef-buffered", "writestr-str", "writef", "writestr-memoryview", "writef"][i % 8]
             try:
                 if api == "writestr":
                     z.writestr(b"", n)
+                elif api == "writestr-bytearray":
+                    z.writestr(bytearray(b""), n)
+                elif api == "writestr-memoryview":
+                    z.writestr(memoryview(b""), n)
+                elif api == "writestr-str":
+                    z.writestr("", n)
+                elif api == "writef-buffered":
+                    z.writef(io.BufferedReader(io.BytesIO(b"")), n)
                 else:
                     z.writef(io.BytesIO(b""), n)
                 got = "accepted"
